@@ -5,8 +5,10 @@ Scalar/Array/FixedArray/FractionScalar build one and the same object whenever th
 the unit resolves and the category accepts the unit; category-only = (default value, default unit,
 category); eval(repr) of a Scalar gives the Scalar back when nothing needs escaping) + generated
 `decide +kernel` table theorems over the default POSC database (every unit row's default category
-resolves to a registered category of the row's quantity type; every category's default unit is a unit
-it accepts; no symbol or category name needs escaping).
+is a registered category of the row's quantity type; every category's default unit is a registered unit
+of the category's quantity type; no symbol or category name needs escaping) - predicates
+`UnitRow.defaultCatOk {db}`, `CatRow.defaultUnitOk {db}`, `UnitRow.symPlain`, `CatRow.namePlain`
+(tags defcat, defunit, symplain, catplain in harness/tablepreds.py).
 Tie: every unit x every category of its quantity type x every form of the four classes, on the real
 default database, against `Ctor.construct` / `createWithQuantity` / `Obj.eq` / `evalRepr`."""
 import numpy
@@ -33,7 +35,11 @@ ASSUMPTIONS = [
     "memo tables (quantities_cache, _category_unit_valid) only replay results on a database that is not edited (C15)",
     "arguments are None, str, finite numbers, lists/tuples of those, 1-d ndarrays, FractionValue, simple Quantity; "
     "the third positional argument is None, a str or a number",
-    "the converted category default (value None, unit given) is compared within K*eps*M, everything else exactly",
+    "the converted category default (value None, unit given) and float(FractionValue) are compared within K*eps*M "
+    "(also through eval(repr)), everything else exactly",
+    "float() of a 1-d ndarray is a TypeError whatever its size (numpy >= 2.4); len()/tuple() of a str count bytes "
+    "(unit symbols, category names and the generated string arguments are ASCII)",
+    "default_unit of a registered category is never None (AddCategory falls back to the base unit)",
 ]
 CLS = ("scalar", "array", "fixed", "fraction")
 
